@@ -197,6 +197,14 @@ func c02(c *Ctx) {
 			}
 		}
 		_ = guard
+		// the durable-precommit watermark recedes exactly to the new in-memory frontier, and only when it is ahead
+		for _, g := range append([]*ssa.Function{f}, f.AnonFuncs...) {
+			for _, in := range sites(g, callTo("embedded/watchers.(*WatchersHub).RecedeTo@durablePrecommitWHub")) {
+				a := desc(callOf(in).Args[1])
+				c.check(hasFieldSuffix(a, "inmemPrecommittedTxID"), r, fnName(f)+":durable-watermark-recedes-to-frontier", c.pos(in.Pos()),
+					"RecedeTo(inmemPrecommittedTxID)", "the durable-precommit watermark is receded to "+a+" instead of the in-memory precommit frontier")
+			}
+		}
 		// frontier never goes below the committed one: every value stored to the frontier is committedTxID or txID-1
 		for i, st := range sites(f, storeTo("ImmuStore.inmemPrecommittedTxID")) {
 			v := desc(st.(*ssa.Store).Val)
